@@ -13,7 +13,7 @@ The structural argument the 0.9.0 fix rests on — attempt, then tolerate "alrea
        remove the marker first), and materialises parents with the tolerant create_dir_all.
 """
 import os
-from ..terms import get_tracer, short, walk
+from ..terms import get_tracer, short, walk, fmt
 from ..pathflow import World
 from ..pathrules import PathRules
 from ..panics import Discharger, load_records
@@ -64,6 +64,49 @@ def run(facts, rep, tier, ctx):
             k += 1
             rep.ob("R17.3", o["fn"], o["key"].split("|")[2], o["ok"], o["detail"], o["loc"])
     rep.floor("lock re-entrancy obligations", k, 13)
+    # R17.3s what an in-memory create refuses is decided by looking up the target and its parent — never by a scan over the other
+    # entries of the map ("nothing can be created below a file": `parent.starts_with(candidate)` without a '/' boundary makes a
+    # sibling file /a refuse create_dir_all(/ab/c))
+    from ..inter import Inter as _In17
+    in17 = _In17(facts)
+    for w3 in (ws, World(facts, True)):
+        if not w3.present():
+            continue
+        ops3 = facts.impl_methods(w3.trait.rsplit("::", 1)[1], w3.memory)
+        k3 = 0
+        for opn in ("create_dir", "create_file"):
+            b3 = ops3.get(opn)
+            if b3 is None:
+                continue
+            todo, seen3 = [b3], {b3.id}
+            while todo:
+                f3 = todo.pop()
+                for cb3 in in17.code_bodies(f3):
+                    for s3 in in17.sites(cb3):
+                        h3 = in17.local_callee(s3)
+                        if h3 is not None and h3.id not in seen3 and h3.kind != "Closure" and h3.vis != "pub" and h3.file == b3.file and \
+                                not (h3.impl and h3.impl.get("trait")):
+                            seen3.add(h3.id)
+                            todo.append(h3)
+                    if cb3.kind == "Closure" and cb3 is not in17.code_body(f3):
+                        continue
+                    for blk3 in cb3.blocks:
+                        if blk3.cleanup:
+                            continue
+                        for st3 in blk3.stmts:
+                            if st3.kind == "assign" and st3.rv.kind == "agg" and st3.rv.agg.get("adt") == "error::VfsErrorKind":
+                                scans = [g for g in D.guards(cb3, blk3.idx) if any(
+                                    x[0] == "call" and isinstance(x[1], str) and x[1] in ("Iterator::any", "Iterator::all", "Iterator::find", "Iterator::position",
+                                                                                        "Iterator::filter", "Iterator::count", "Iterator::find_map")
+                                    and any(y[0] == "call" and isinstance(y[1], str) and y[1] in ("HashMap::iter", "HashMap::keys", "HashMap::values",
+                                                                                                "BTreeMap::iter", "BTreeMap::keys", "BTreeMap::range")
+                                            for y in walk(x)) for x in walk(g[1]))]
+                                k3 += 1
+                                rep.ob(("A/" if w3.asyncw else "") + "R17.3s", b3.id, "%s: refusal %s decided by lookups, not by a scan of the map" % (
+                                    opn, st3.rv.agg.get("variant")), not scans, "" if not scans else
+                                    "a refusal of %s is decided by a scan over all entries (%s): entries that are neither the target nor its parent can "
+                                    "make a create fail" % (opn, fmt(scans[0][1])[:60]), st3.line)
+        rep.floor("in-memory create refusals judged (%s)" % w3.tag, k3, 3)
     # PhysicalFS
     physrules.table_o_shape(facts, rep, "R17.3p", ws)
     physrules.mkdir_not_asked(facts, rep, "R17.3p", ws, D)
